@@ -83,13 +83,14 @@ def node_error_site(e) -> list | None:
         return None
 
 
-def observe_string_api(case) -> dict:
-    """assemble_string_with_emitter on the source text, files in a sandbox."""
+def observe_string_api(case, in_place: bool = False) -> dict:
+    """assemble_string_with_emitter on the source text, files in a sandbox (in_place: in the current directory,
+    whose files the caller has laid out)."""
     from a816.cpu.cpu_65c816 import RomType
     from a816.parse.nodes import NodeError
     from a816.program import Program
     logging.disable(logging.CRITICAL)
-    with asmdriver.sandbox(_files_on_disk(case)):
+    with (contextlib.nullcontext() if in_place else asmdriver.sandbox(_files_on_disk(case))):
         program = Program()
         if case.get("rom"):
             program.resolver.rom_type = RomType[asmdriver.ROMS[case["rom"]]]
